@@ -294,18 +294,15 @@ func c16(c *core.Ctx, r *core.Report) {
 			tot, ok := an.Total(exits, false)
 			r.Check(ok && tot.Lo >= 1, "Metrics.Reset#"+f.Name(), c.Pos(reset.Pos()), "Reset resets "+f.Name()+" on every path", "Metrics.Reset does not reset "+f.Name()+": samples of an earlier run in the same process are mixed into this run's metric")
 		}
-		do, setupCall := runDo(c)
-		var resetCall ssa.CallInstruction
-		for _, call := range an.AllCalls(do) {
-			if an.Callee(call) == reset {
-				resetCall = call
-			}
-		}
-		if resetCall == nil {
+		do, _ := runDo(c)
+		setupFn, _, _ := setupRunner(c)
+		resets := an.FlatCalls(do, flatDepth, func(_ ssa.CallInstruction, t *ssa.Function) bool { return t == reset })
+		setups := an.FlatCalls(do, flatDepth, func(_ ssa.CallInstruction, t *ssa.Function) bool { return t == setupFn })
+		if len(resets) == 0 {
 			r.Violation(core.FuncName(do)+"#reset", c.Pos(do.Pos()), "Run.Do does not reset the metrics at run start")
-		} else {
-			_, isDefer := resetCall.(*ssa.Defer)
-			r.Check(!isDefer && an.Dominates(resetCall, setupCall), core.FuncName(do)+"#reset-before-setup", an.Pos(c, resetCall), "metrics are reset before Setup records its sample", "metrics are reset after Setup (or at exit): the setup sample of this run is erased")
+		} else if len(setups) > 0 {
+			_, isDefer := resets[0].Instr.(*ssa.Defer)
+			r.Check(!isDefer && an.Before(resets[0], setups[0]), core.FuncName(do)+"#reset-before-setup", an.Pos(c, resets[0].Instr), "metrics are reset before Setup records its sample", "metrics are reset after Setup (or at exit): the setup sample of this run is erased")
 		}
 		// observations
 		n := 0
